@@ -394,16 +394,44 @@ func check(id, tier string) int {
 			budget = n
 		}
 	}
-	outs := make([]shardOut, nshards)
-	var wg sync.WaitGroup
-	for i := 0; i < nshards; i++ {
-		wg.Add(1)
-		go func(i int) {
-			defer wg.Done()
-			outs[i] = runShard(b, cfg, tier, seed, i, nshards, budget, nil)
-		}(i)
+	// Race-built workers are restarted in rounds: the Go race runtime never releases the
+	// timer context of a synctest bubble (about 85 KB per simulated case), so a long run in
+	// one process would exhaust memory. Every round gets its own range of case indices.
+	roundMS := budget
+	if cfg.Race && roundMS > 15000 {
+		roundMS = 15000
 	}
-	wg.Wait()
+	var outs []shardOut
+	var wg sync.WaitGroup
+	for r, left := 0, budget; left > 0; r, left = r+1, left-roundMS {
+		ms := roundMS
+		if left < ms {
+			ms = left
+		}
+		round := make([]shardOut, nshards)
+		for i := 0; i < nshards; i++ {
+			wg.Add(1)
+			go func(i int) {
+				defer wg.Done()
+				extra := []string{fmt.Sprintf("VERIF_INDEX_BASE=%d", uint64(r)*100000000)}
+				if r > 0 {
+					extra = append(extra, "VERIF_RANDOM_ONLY=1")
+				}
+				round[i] = runShardAs(b, cfg, tier, seed, i, nshards, ms, extra, fmt.Sprintf("r%d_", r))
+			}(i)
+		}
+		wg.Wait()
+		outs = append(outs, round...)
+		crashed := false
+		for _, so := range round {
+			if so.res == nil {
+				crashed = true
+			}
+		}
+		if crashed {
+			break // the violation is already there; no point in more rounds
+		}
+	}
 	if cfg.ID == "C13" {
 		// sub-scenarios whose findings end the process run in a process of their own
 		ms := 8000
